@@ -272,21 +272,16 @@ func (m *Manager) DeleteAllocation(fiveTuple *FiveTuple) {
 func (m *Manager) deleteAllocation(fiveTuple *FiveTuple, only *Allocation) {
 	fingerprint := fiveTuple.Fingerprint()
 
+	// Unregistered and closed in one go: a request that finds the allocation
+	// closed finds it unregistered, and the other way round.
 	m.lock.Lock()
 	allocation := m.allocations[fingerprint]
-	if only != nil && allocation != only {
+	if allocation == nil || (only != nil && allocation != only) {
 		m.lock.Unlock()
 
 		return
 	}
 	delete(m.allocations, fingerprint)
-	m.lock.Unlock()
-
-	if allocation == nil {
-		return
-	}
-
-	m.lock.Lock()
 	if err := allocation.Close(); err != nil {
 		m.log.Errorf("Failed to close allocation: %v", err)
 	}
